@@ -54,15 +54,14 @@ static void bounds_case(void) {
   int rc = lp_polynomial_constraint_infer_bounds(A, (lp_sign_condition_t)cond, neg, IM);
   sb_sp(); sb_long(rc);
   if (rc == 1) {
-    int cnt = 0; for (int k = 0; k < 4; ++k) if (lp_interval_assignment_get_interval(IM, hp_x[k])) ++cnt;
-    sb_sp(); sb_long(cnt);
-    for (int k = 0; k < 4; ++k) { const lp_interval_t* I = lp_interval_assignment_get_interval(IM, hp_x[k]); if (I) { sb_sp(); sb_long(k); sb_sp(); sb_vinterval(I); } }
+    sb_sp(); sb_long(4);
+    for (int k = 0; k < 4; ++k) { const lp_interval_t* I = lp_interval_assignment_get_interval(IM, hp_x[k]); sb_sp(); sb_long(k); sb_sp(); sb_vinterval(I); }
   }
   sb_emit();
   /* explanations */
   for (int k = 0; k < 4; ++k) {
     if (!used[k] || !chance(60)) continue;
-    sb_begin("inf", "explain"); sb_sp(); sb_poly(A); sb_sp(); sb_long(cond); sb_sp(); sb_long(neg); sb_sp(); sb_long(k); sb_sp(); sb_long(rc); sb_arrow();
+    sb_begin("inf", "explain"); sb_sp(); sb_poly(A); sb_sp(); sb_long(cond); sb_sp(); sb_long(neg); sb_sp(); sb_long(k); sb_sp(); sb_long(rc); sb_sp(); sb_vinterval(lp_interval_assignment_get_interval(IM, hp_x[k])); sb_arrow();
     lp_polynomial_t* e = lp_polynomial_constraint_explain_infer_bounds(A, (lp_sign_condition_t)cond, neg, hp_x[k]);
     sb_sp(); if (e) sb_poly(e); else sb_str("none"); sb_emit();
     if (e) lp_polynomial_delete(e);
